@@ -361,6 +361,21 @@ def shading(name, gen, valid, solve, readings=("std",)):
 # ---- heyawake
 def _hey_gen(rng, big):
     h, w = pick_shape(rng, SHAPES, 12 if big else 9)
+    if rng.random() < 0.35:
+        # rectangular rooms, handed over in the solver's rectangular form [(y0, x0, y1, x1, clue)] in an arbitrary order
+        rects = [(0, 0, h, w)]
+        for _ in range(rng.randint(0, 5)):
+            k = rng.randrange(len(rects))
+            y0, x0, y1, x1 = rects[k]
+            if (y1 - y0 > 1) and (x1 - x0 == 1 or rng.random() < 0.5):
+                c = rng.randint(y0 + 1, y1 - 1)
+                rects[k:k + 1] = [(y0, x0, c, x1), (c, x0, y1, x1)]
+            elif x1 - x0 > 1:
+                c = rng.randint(x0 + 1, x1 - 1)
+                rects[k:k + 1] = [(y0, x0, y1, c), (y0, c, y1, x1)]
+        rng.shuffle(rects)
+        rooms = [[[y, x] for y in range(y0, y1) for x in range(x0, x1)] for y0, x0, y1, x1 in rects]
+        return {"h": h, "w": w, "rooms": rooms, "rects": [list(r) for r in rects], "clues": [rng.choice([-1, -1, 0, 1, 2]) for _ in rooms]}
     rooms = randrooms(rng, h, w, rng.choice([1, 2, 3, 4]))
     return {"h": h, "w": w, "rooms": rooms, "clues": [rng.choice([-1, -1, 0, 1, 2]) for _ in rooms]}
 
@@ -410,7 +425,10 @@ def _hey_valid(i, B, r):
 def _hey_solve(i):
     from cspuz.puzzle import heyawake
 
-    is_sat, arr = heyawake.solve_heyawake(i["h"], i["w"], tup(i["rooms"]), i["clues"])
+    if i.get("rects"):
+        is_sat, arr = heyawake.solve_heyawake(i["h"], i["w"], [tuple(r) + (c,) for r, c in zip(i["rects"], i["clues"])])
+    else:
+        is_sat, arr = heyawake.solve_heyawake(i["h"], i["w"], tup(i["rooms"]), i["clues"])
     return is_sat, grid_got(i["h"], i["w"], arr)
 
 
